@@ -9,7 +9,7 @@ use std::process::{Child, Command, Stdio};
 use std::sync::atomic::{AtomicUsize, Ordering};
 use std::sync::mpsc;
 use std::time::{Duration, Instant};
-use torrent_bootstrap::{Parser, Torrent};
+use torrent_bootstrap::{Parser, Pieces, Torrent};
 
 pub struct Counting;
 static LARGEST: AtomicUsize = AtomicUsize::new(0);
@@ -63,7 +63,9 @@ pub fn child() {
         let b1 = bytes.clone();
         let d = class(guarded(move || Parser::decode(&b1)));
         let b2 = bytes.clone();
-        let l = class(guarded(move || Torrent::from_bytes(&b2)));
+        // loading, then the piece table every run builds from what was loaded (Pieces::from_torrent): declared lengths must
+        // not make either of them panic or loop
+        let l = class(guarded(move || Torrent::from_bytes(&b2).map(|t| { let _ = Pieces::from_torrent(&t); t })));
         let ms = t0.elapsed().as_millis();
         let largest = LARGEST.load(Ordering::Relaxed);
         let peak = PEAK.load(Ordering::Relaxed).saturating_sub(base);
